@@ -13,6 +13,7 @@
 -/
 import ModVerif.Model.Module
 import ModVerif.Proofs.ModuleEscape
+import ModVerif.Proofs.ModulePath
 namespace ModVerif.Props.C11
 open ModVerif ModVerif.Module
 
@@ -52,6 +53,22 @@ theorem unescapePath_image (e p : Bytes) (h : unescapePath e = .ok p) : escapePa
 theorem escapePath_rejects_invalid (p : Bytes) (x : PathErr) (h : checkModPath p = .error x) :
     escapePath p = .error (.path x) := by
   simp [escapePath, h]
+
+/-- Every valid module path escapes: the "internal error" return of escapeString is unreachable
+    from EscapePath. -/
+theorem escapePath_total_on_valid (p : Bytes) (h : checkModPath p = .ok ()) : ∃ e, escapePath p = .ok e := by
+  have hall : p.all okByte = true := by
+    rw [List.all_eq_true]; intro b hb
+    rcases checkModPath_bytes p h b hb with h47 | hok
+    · subst h47; decide
+    · have := modPathOK_lt _ hok
+      have := modPathOK_not_bang _ hok
+      simp [okByte, *]
+  exact ⟨_, (escapePath_ok_iff p _).mpr ⟨h, by rw [escapeString_eq, hall]; rfl⟩⟩
+
+/-- EscapePath succeeds exactly on the valid module paths. -/
+theorem escapePath_ok_iff_valid (p : Bytes) : (∃ e, escapePath p = .ok e) ↔ checkModPath p = .ok () :=
+  ⟨fun ⟨e, h⟩ => ((escapePath_ok_iff p e).mp h).1, escapePath_total_on_valid p⟩
 
 /-! ### versions -/
 
